@@ -107,6 +107,7 @@ func runC05() {
 	interpgen.DeepStacks(func(p *interpgen.Program) { emit(p) })
 	interpgen.Limits(func(p *interpgen.Program) { emit(p) }, c.Thorough())
 	interpgen.ScriptBoundary(func(p *interpgen.Program) { emit(p) })
+	numberLengthBoundary()
 	// two value-producing opcodes in one execution (what one leaves behind must not influence the other):
 	// ordered pairs of the 42 snippets of the aliasing matrix, the same opcode twice always
 	for i, t1 := range transforms {
@@ -382,6 +383,9 @@ func sigShapes(r *common.Rand, emitp func(*interpgen.Program), n int) {
 		if i%3 == 1 {
 			sig = derish()
 		}
+		if i%11 == 5 {
+			sig = []byte{} // an empty signature (OP_0): the one every NULLFAIL-aware wallet sends for a key it does not sign for
+		}
 		hugeSig := i%97 == 11 // a "signature" item that needs the longest push form when the script code is rebuilt
 		if hugeSig {
 			sig = r.Bytes([]int{65535, 65536, 70000}[r.Intn(3)])
@@ -478,5 +482,32 @@ func sigShapes(r *common.Rand, emitp func(*interpgen.Program), n int) {
 			p.Flags |= []uint32{interpgen.FDERSig, interpgen.FLowS, interpgen.FStrictEnc, interpgen.FDERSig | interpgen.FLowS | interpgen.FStrictEnc, 0}[r.Intn(5)]
 		}
 		emitp(p.Fix())
+	}
+}
+
+// numberLengthBoundary: the post-Genesis limit on the length of a number operand, MAX_SCRIPT_NUM_LENGTH_AFTER_GENESIS
+// = 750 * ONE_KILOBYTE = 750 000 bytes (ONE_KILOBYTE is 1000 in the node), at the boundary itself: an operand of
+// exactly that length is a number, one byte more is not, for every way an opcode reads a number. Implementation only
+// (decoding a 750 000-byte number inside Coq takes minutes); the model's constant is tied by the translator
+// (config_methods_match).
+func numberLengthBoundary() {
+	const limit = 750000
+	for _, n := range []int{limit, limit + 1, 768000} {
+		operand := make([]byte, n)
+		operand[n-1] = 0x01 // 00 .. 00 01: cheap to decode, as long as it gets
+		push := append([]byte{0x4e, byte(n), byte(n >> 8), byte(n >> 16), byte(n >> 24)}, operand...)
+		for _, reader := range [][]byte{{0x92}, {0x81, 0x75, 0x51}, {0x51, 0x9f, 0x75, 0x51}} { // 0NOTEQUAL / BIN2NUM DROP 1 / 1 LESSTHAN DROP 1
+			p := (&interpgen.Program{Unlock: []byte{}, Lock: cat(push, reader), Flags: interpgen.FGenesis, Kind: "number-length-boundary"}).Fix()
+			obs, msg := interpgen.RunPlain(p)
+			c.Tally(fmt.Sprintf("number-length-boundary/%d/%s", n, obs))
+			want := "ok"
+			if n > limit {
+				want = "err"
+			}
+			if obs != want {
+				c.Violate("PopInt/number-length-limit-after-genesis", fmt.Sprintf("a %d-byte operand read by opcode 0x%02x: %s (%s), the limit is %d bytes", n, reader[0], obs, msg, limit), map[string]interface{}{"operand_bytes": n, "reader": common.Hex(reader), "flags": p.Flags})
+			}
+			c.Case("", map[string]interface{}{"kind": p.Kind, "operand_bytes": n, "reader": common.Hex(reader)}, fmt.Sprintf("nlb%d/%x", n, reader), true)
+		}
 	}
 }
